@@ -49,7 +49,8 @@ THEOREMS = {
     "C12": [("QuartzModel.Theorems.C12", "Pool." + t) for t in [
         "C12_facts", "C12_blocking_le_one", "C12_blocking_ignores_worker_limit", "C12_pool_le_n", "C12_pool_reaches_n",
         "C12_pool_full_blocks", "C12_unbounded_loop_never_waits", "C12_unbounded_no_bound",
-        "C12_blocking_le_one_code", "C12_pool_le_n_code", "C12_unbounded_loop_never_waits_code"]],
+        "C12_blocking_le_one_code", "C12_pool_le_n_code", "C12_unbounded_loop_never_waits_code",
+        "C12_handoff_within_run", "C12_stale_worker_steals_shared_channel"]],
     "C10": [("QuartzModel.Theorems.C10", "Lifecycle." + t) for t in [
         "C10_facts", "C10_start_idempotent", "C10_stop_idempotent", "C10_isStarted_latest", "C10_started_at_quiescence",
         "C10_cancel_eq_stop", "C10_restart", "C10_restart_unguarded_fails", "C10_cancel_start_race_unrepaired",
